@@ -130,6 +130,16 @@ class CanvasCache:
             for w in depends_on:
                 if w not in cls._widgets:
                     return
+            if getattr(canvas, "depends_on", None) is not None:
+                # widgets named explicitly need not be displayed in this canvas.  Their dependency edge is
+                # dropped when the last of their own canvases is collected, so keep one alive with this canvas.
+                keepalive = []
+                for w in depends_on:
+                    live = next((c for c in (r() for r in cls._widgets[w].values()) if c is not None), None)
+                    if live is None:
+                        return
+                    keepalive.append(live)
+                canvas._depends_keepalive = keepalive  # noqa: SLF001
             for w in depends_on:
                 cls._deps.setdefault(w, []).append(widget)
 
